@@ -42,6 +42,9 @@ type WALFileType struct {
 	walWaitGroup      *sync.WaitGroup
 	tpd               *TriggerPluginDispatcher
 	txnPipe           *TransactionPipe
+	// syncFlushMu serialises the flushes that RequestFlush runs in its callers'
+	// goroutines when there is no WAL writer goroutine.
+	syncFlushMu sync.Mutex
 }
 
 type ReplicationSender interface {
@@ -888,7 +891,14 @@ func (wf *WALFileType) SyncWAL(walRefresh, primaryRefresh time.Duration, walRota
 // early on a non-empty flushChannel would acknowledge unflushed writes.)
 func (wf *WALFileType) RequestFlush() {
 	if !getHaveWALWriter() {
-		if err := wf.FlushToWAL(); err != nil {
+		// FlushToWAL is not goroutine-safe (WAL file, transaction pipe, trigger
+		// dispatcher): callers, including triggers that write from Fire, take turns.
+		err := func() error {
+			wf.syncFlushMu.Lock()
+			defer wf.syncFlushMu.Unlock()
+			return wf.FlushToWAL()
+		}()
+		if err != nil {
 			log.Error("failed to flush WAL", zap.Error(err))
 		}
 		return
